@@ -556,8 +556,14 @@ class MiniInterp:
                     return True
             return False
         if isinstance(p, ast.MatchSequence):
+            if isinstance(v, Sym) and getattr(v, "tuple_order", None):
+                v = tuple(v.fields[k] for k in v.tuple_order)          # a named tuple is a sequence
+            elif isinstance(v, Deque):
+                v = list(v)
             if not isinstance(v, (list, tuple)) or isinstance(v, T):
-                if isinstance(v, (Sym, Lin, str, dict)) or v is None or isinstance(v, (int, float)):
+                if isinstance(v, Sym) and (v.open or v.cls is None or v.cls.external_bases()):
+                    raise Unknown("sequence pattern on a symbolic value")
+                if isinstance(v, (Sym, Lin, str, dict, SymDict)) or v is None or isinstance(v, (int, float)):
                     return False
                 raise Unknown("sequence pattern on this value")
             stars = [i for i, q in enumerate(p.patterns) if isinstance(q, ast.MatchStar)]
@@ -608,6 +614,9 @@ class MiniInterp:
     def assign(self, t, v, env, fi):
         if isinstance(t, ast.Name):
             env[t.id] = v
+            outer = env.get("__nonlocal__")
+            if outer and t.id in outer:
+                outer[t.id][t.id] = v          # `nonlocal x`: the assignment is to the enclosing function's variable
         elif isinstance(t, (ast.Tuple, ast.List)):
             vals = list(self.iterate(v))
             stars = [i for i, e in enumerate(t.elts) if isinstance(e, ast.Starred)]
@@ -1269,6 +1278,19 @@ class MiniInterp:
                             # a function stored in the class body is a method: bound to the instance on access
                             return PyFn(f"bound {attr}", lambda a, k, val=val, obj=obj: self.call_callable(val, [obj] + list(a), dict(k)))
                         return val
+            if getattr(obj, "tuple_order", None) and attr in ("_replace", "_asdict", "_fields", "count", "index"):
+                if attr == "_fields":
+                    return tuple(obj.tuple_order)
+                if attr == "_asdict":
+                    return PyFn("_asdict", lambda a, k, obj=obj: {f: obj.fields[f] for f in obj.tuple_order})
+                if attr == "_replace":
+                    def _rep(a, k, obj=obj):
+                        new = Sym(obj.name, _cls=obj.cls, **{f: k.get(f, obj.fields[f]) for f in obj.tuple_order})
+                        new.tuple_order = list(obj.tuple_order)
+                        return new
+                    return PyFn("_replace", _rep)
+                vals = [obj.fields[f] for f in obj.tuple_order]
+                return T("native", tuple(vals), attr)
             if obj.open:
                 ch = Sym(f"{obj.name}.{attr}", _open=True)
                 ch.parent = (obj, attr)
@@ -1304,6 +1326,11 @@ class MiniInterp:
                     f0 = next(iter(c.methods.values()), fi)
                     self.class_state[(c.qual, attr)] = self.ev(c.class_attrs[attr], self.class_namespace(c), f0)
                     return self.class_state[(c.qual, attr)]
+            if any(c.is_namedtuple() for c in ci.mro()):
+                if attr == "_make":
+                    return PyFn("_make", lambda a, k, ci=ci, obj=obj: self.construct(ci, list(self.iterate(a[0])), {}, node, fi))
+                if attr == "_fields":
+                    return tuple(f for f, _ in (ci.dataclass_fields() or []))
             raise Unknown(f"class attribute {attr}")
         if isinstance(obj, tuple) and obj and obj[0] == "external":
             if (obj[1], attr) in (("os.path", "sep"), ("os", "sep")):
@@ -2264,6 +2291,11 @@ class MiniInterp:
                 return self.ev(f.node.body, e2, f.fi)
             sub = f.fi.nested.get(f.node.name) or f.fi
             e2 = dict(f.env)
+            nl = {nm: f.env for st_ in ast.walk(f.node) if isinstance(st_, ast.Nonlocal) for nm in st_.names}
+            if nl:
+                e2["__nonlocal__"] = nl
+            else:
+                e2.pop("__nonlocal__", None)
             aa = f.node.args
             ps = [x.arg for x in aa.posonlyargs + aa.args]
             defaults = dict(zip(ps[len(ps) - len(aa.defaults):], aa.defaults))
